@@ -21,7 +21,7 @@ def host_re(maxlen=6, upper=False):
 SCHEMES = ["http", "https", "ws", "wss", "ftp"]
 
 
-def sym_authority(ctx: Ctx, tag="", maxlen=6, upper=False):
+def sym_authority(ctx: Ctx, tag="", maxlen=6, upper=False, userinfo=False):
     """host = inner | "[" inner "]": the bracket structure is explicit (and registered for the
     trim_*_matches models) so that the solver never has to rediscover it from the text"""
     inner = z3.String("hostname" + tag)
@@ -31,7 +31,8 @@ def sym_authority(ctx: Ctx, tag="", maxlen=6, upper=False):
     al = ALNUM_UP if upper else ALNUM
     name = z3.Concat(al, z3.Loop(z3.Union(al, DOT, DASH), 0, maxlen - 1))
     v6 = z3.Loop(z3.Union(z3.Range("0", "9"), z3.Range("a", "f"), COLON), 2, maxlen)
-    ctx.assume(z3.If(bracketed, z3.InRe(inner, v6), z3.InRe(inner, name)))
+    # `:8080` (empty host with a port) is a legal authority for http::Uri
+    ctx.assume(z3.If(bracketed, z3.InRe(inner, v6), z3.Or(z3.InRe(inner, name), z3.And(has_port, inner == z3.StringVal("")))))
     with_tail = z3.Concat(inner, z3.StringVal("]"))
     host = z3.If(bracketed, z3.Concat(z3.StringVal("["), with_tail), inner)
     reg = getattr(ctx, "trim_registry", None)
@@ -66,11 +67,15 @@ def sym_authority(ctx: Ctx, tag="", maxlen=6, upper=False):
     ctx.lazy_defs.append(lo == lower(inner, maxlen))
     a = AuthorityV(host, has_port, port, inner=inner, bracketed=bracketed)
     a.lower_inner = lo
+    if userinfo:
+        ui = z3.String("userinfo" + tag)
+        ctx.assume(z3.InRe(ui, z3.Loop(z3.Union(z3.Range("a", "z"), z3.Range("0", "9")), 0, 3)))
+        a.userinfo = ui
     return a
     return AuthorityV(host, has_port, port, inner=inner, bracketed=bracketed)
 
 
-def sym_uri(ctx: Ctx, tag="", maxlen=6, path_len=4, shape_pq=True):
+def sym_uri(ctx: Ctx, tag="", maxlen=6, path_len=4, shape_pq=True, userinfo=False):
     """every URI shape http::Uri can hold (uri/mod.rs invariants): absolute (scheme+authority+path),
     authority-form (authority only), origin-form / asterisk (path only).
     Assumptions (stated in evidence): no userinfo, lower-case scheme from a small set, host of <= maxlen
@@ -80,7 +85,7 @@ def sym_uri(ctx: Ctx, tag="", maxlen=6, path_len=4, shape_pq=True):
     scheme = z3.String("scheme" + tag)
     has_auth = z3.Bool("has_auth" + tag)
     pq = z3.String("pq" + tag)
-    auth = sym_authority(ctx, tag, maxlen)
+    auth = sym_authority(ctx, tag, maxlen, userinfo=userinfo)
     ctx.assume(z3.Implies(has_scheme, has_auth))
     ctx.assume(z3.Implies(has_scheme, z3.Or(*[scheme == z3.StringVal(s) for s in SCHEMES])))
     ctx.assume(z3.Implies(z3.Not(has_scheme), scheme == z3.StringVal("")))
@@ -153,6 +158,8 @@ def ev(m, e):
 
 def authority_text(m, a: AuthorityV):
     t = ev(m, a.host)
+    if a.userinfo is not None and ev(m, a.userinfo):
+        t = ev(m, a.userinfo) + "@" + t
     if ev(m, a.has_port):
         t += ":" + str(ev(m, a.port))
     return t
